@@ -213,7 +213,7 @@ func sizeClass(n int) string {
 
 func genHTTPInputs(o hx.Opts, r *hx.Rand) []HttpInput {
 	var ins []HttpInput
-	add := func(in HttpInput) { ins = append(ins, in) }
+	add := func(in HttpInput) { in.Marker = fmt.Sprintf("h%d", len(ins)); ins = append(ins, in) }
 	id := func() string { return fmt.Sprintf("h%d", len(ins)) }
 	// corpus: pinned witnesses first
 	add(corpusNoUA(id()))
